@@ -15,7 +15,7 @@ from ..flow import Flow, emptiness_test_kind
 from ..alg import Sym, Unsupported, _binop
 
 GEO = "typhon/geographical.py"
-EXPECT = {"C06.units": 8, "C06.scale": 4, "C06.deshuffle": 2, "C06.pairs": 2, "C06.empty": 1, "C06.metric": 2}
+EXPECT = {"C06.units": 8, "C06.scale": 4, "C06.deshuffle": 2, "C06.pairs": 2, "C06.empty": 1, "C06.metric": 2, "C06.complete": 3, "C06.pure": 3}
 
 SI_KM = {  # unit -> (kilometres per unit, accepted spellings)
     "cm": (1e-5, {"cm", "centimeter", "centimeters", "centimetre", "centimetres"}),
@@ -383,6 +383,42 @@ def rule_metric(ctx):
                want + " in double precision", node=r, func=f)
 
 
+def rule_complete(ctx):
+    ctx.rule("C06.complete", "T1+T2", "every answer of query() comes from the tree query of the current coordinates: no early result, no state kept between calls")
+    f = ctx.func(GEO, "GeoIndex.query")
+    flow = Flow(f)
+    cfg = flow.cfg
+    tq = [c for c in calls_in(f.node, "query_radius")]
+    if not tq:
+        raise AnalysisError("query(): tree query not found")
+    tn = set(cfg.nodes(enclosing_stmt(tq[0])))
+    early = [r for r in flow.stmts if isinstance(r, ast.Return) and not all(cfg.dominated_by(n, tn) for n in cfg.nodes(r))]
+    ctx.ob("GeoIndex.query.no_shortcut", not early, "returns not dominated by self.tree.query_radius(...): %s" % ([("line %d: %s" % (r.lineno, norm(r)[:50])) for r in early] or "none"),
+           "no result is returned before the tree was asked (a bounding-box pre-test in degrees is wrong at the date line and near the poles)",
+           node=early[0] if early else tq[0], func=f)
+    # the points handed to the tree are the conversion of the current arguments
+    pts = tq[0].args[0] if tq[0].args else None
+    v = flow.resolve(pts, at=tq[0], depth=2) if pts is not None else None
+    okp = v is not None and norm(v) == "self._to_metric(%s, %s)" % (f.params[1], f.params[2])
+    ctx.ob("GeoIndex.query.points", okp, "tree queried with %s" % (norm(v) if v is not None else None), "self._to_metric(lat, lon) of this call's arguments", node=tq[0], func=f)
+    stores = []
+    for q in ("GeoIndex.query", "GeoIndex._to_metric"):
+        g = ctx.func(GEO, q)
+        for st in walk_no_nested(g.node):
+            if isinstance(st, (ast.Assign, ast.AugAssign)):
+                for t in (st.targets if isinstance(st, ast.Assign) else [st.target]):
+                    if dotted(t) and dotted(t).startswith("self."):
+                        stores.append("%s: %s" % (q, norm(st)[:60]))
+            if isinstance(st, ast.Compare) and any(isinstance(o, (ast.Is, ast.IsNot)) for o in st.ops) \
+                    and not any(isinstance(c, ast.Constant) and c.value is None for c in [st.left] + st.comparators):
+                stores.append("%s: identity comparison %s" % (q, norm(st)))
+    ctx.ob("GeoIndex.query.stateless", not stores, "state written / object identity used while querying: %s" % (stores or "none"),
+           "query() and _to_metric() keep nothing between calls (a cache keyed by object identity answers for stale coordinates after an in-place update)",
+           node=f.node, func=f)
+
+
 def run(ctx):
-    for r in (rule_units, rule_scale, rule_deshuffle, rule_pairs, rule_empty, rule_metric):
+    for r in (rule_units, rule_scale, rule_deshuffle, rule_pairs, rule_empty, rule_metric, rule_complete):
         ctx.attempt(r, ctx)
+    from ..purity import rule_pure
+    ctx.attempt(rule_pure, ctx, "C06.pure", [(GEO, "GeoIndex.query"), (GEO, "GeoIndex._to_metric"), (GEO, "to_kilometers")])
